@@ -727,6 +727,14 @@ fn eval(name: &str, a: &[Value]) -> Value {
                 },
             }
         }
+        // [config, default] → diff(config, default).with_defaults_from(default) == config.with_defaults_from(default)?
+        "tcc_diff_defaults" => {
+            let c = crate::cfg::tcc_from(&a[0]);
+            let d = crate::cfg::tcc_from(&a[1]);
+            let got = c.diff(&d).with_defaults_from(&d);
+            let want = c.with_defaults_from(&d);
+            json!({"equal": got == want, "got": crate::cfg::tcc_to(&got), "want": crate::cfg::tcc_to(&want)})
+        }
         // TestCase::render_output(bytes) under keep_crlf / strip_ansi_escaping (null | bool each)
         "render_output" => {
             let mut config = scrut::config::TestCaseConfig::empty();
